@@ -319,6 +319,10 @@ pub fn interpret(case: &Case, run: Option<&mut Run>) -> Result<(), String> {
     let mut evals = 0u64;
     let check_acc = |lex: &mut Box<dyn Dyn<'_> + '_>, m: &Model, when: &str| -> Result<(), String> {
         let sp = lex.span();
+        // checked before slice() / remainder() are called: off a boundary, source[span()] does not exist
+        if sp.start > sp.end || sp.end > len || (!case.bytes_mode && !(text.is_char_boundary(sp.start) && text.is_char_boundary(sp.end))) {
+            return Err(format!("{when}: span() = {sp:?} is not a range of the source ({len} bytes{}): source[span()] does not exist", if case.bytes_mode { "" } else { ", str: both ends must be char boundaries" }));
+        }
         if sp != (m.start..m.end) {
             return Err(format!("{when}: span() = {sp:?}, model {}..{}", m.start, m.end));
         }
